@@ -9,6 +9,7 @@ import (
 	"io/fs"
 	"io/ioutil"
 	"os"
+	"path/filepath"
 	"reflect"
 	"runtime"
 	"strings"
@@ -259,7 +260,10 @@ func writeReader(path string, r io.Reader, perms fs.FileMode, compress bool) (er
 		path = fmt.Sprintf("%s%s", path, compressedExtension)
 	}
 
-	if out, err = os.OpenFile(path, os.O_CREATE|os.O_TRUNC|os.O_RDWR, perms); err != nil {
+	// we write to a temporary file, in the same directory, which is then
+	// renamed, not to leave a truncated file behind if we crash half-way
+	tmp := tmpFilename(path)
+	if out, err = os.OpenFile(tmp, os.O_CREATE|os.O_TRUNC|os.O_RDWR, perms); err != nil {
 		return
 	}
 	defer out.Close()
@@ -277,6 +281,18 @@ func writeReader(path string, r io.Reader, perms fs.FileMode, compress bool) (er
 		return
 	}
 
-	return w.Close()
+	if err = w.Close(); err != nil {
+		return
+	}
 
+	// when w is a compressor the file is not closed yet
+	out.Close()
+
+	return os.Rename(tmp, path)
+}
+
+// tmpFilename returns the name of the temporary file used to write path. It
+// must not look like the name of an Object file (uuid.extension)
+func tmpFilename(path string) string {
+	return filepath.Join(filepath.Dir(path), fmt.Sprintf(".tmp-%s", filepath.Base(path)))
 }
